@@ -15,6 +15,7 @@ require (
 	github.com/buildbarn/bb-storage v0.0.0-20260805174928-33530b6bb903
 	github.com/buildbarn/go-xdr v0.0.0-20240702182809-236788cf9e89
 	github.com/google/uuid v1.6.0
+	github.com/hanwen/go-fuse/v2 v2.10.1
 	golang.org/x/sync v0.20.0
 	google.golang.org/genproto/googleapis/rpc v0.0.0-20260526163538-3dc84a4a5aaa
 	google.golang.org/grpc v1.81.1
